@@ -14,16 +14,16 @@ ASSUMPTIONS = ['reference tables and G.711 routines under /verif/refs were writt
 
 KERNELS = {
     # kernel: list of required index-expression strings (canonical)
-    's2ulaw_array': ['ulaw_encode[(ptr[i] / 4)]', '(127 & ulaw_encode[(ptr[i] / -4)])'],
-    'i2ulaw_array': ['ulaw_encode[8191]', 'ulaw_encode[(ptr[i] >> 18)]', '(127 & ulaw_encode[(-ptr[i] >> 18)])'],
-    'f2ulaw_array': ['ulaw_encode[R((normfact * ptr[i]))]', '(127 & ulaw_encode[-R((normfact * ptr[i]))])'],
-    'd2ulaw_array': ['ulaw_encode[R((normfact * ptr[i]))]', '(127 & ulaw_encode[-R((normfact * ptr[i]))])'],
-    's2alaw_array': ['alaw_encode[(ptr[i] / 16)]', '(127 & alaw_encode[(ptr[i] / -16)])'],
-    'i2alaw_array': ['alaw_encode[2047]', 'alaw_encode[(ptr[i] >> 20)]', '(127 & alaw_encode[(-ptr[i] >> 20)])'],
-    'f2alaw_array': ['alaw_encode[R((normfact * ptr[i]))]', '(127 & alaw_encode[-R((normfact * ptr[i]))])'],
-    'd2alaw_array': ['alaw_encode[R((normfact * ptr[i]))]', '(127 & alaw_encode[-R((normfact * ptr[i]))])'],
-    'ulaw2s_array': ['ulaw_decode[buffer[i]]'], 'ulaw2i_array': ['(ulaw_decode[buffer[i]] << 16)'], 'ulaw2f_array': ['(normfact * ulaw_decode[buffer[i]])'], 'ulaw2d_array': ['(normfact * ulaw_decode[buffer[i]])'],
-    'alaw2s_array': ['alaw_decode[buffer[i]]'], 'alaw2i_array': ['(alaw_decode[buffer[i]] << 16)'], 'alaw2f_array': ['(normfact * alaw_decode[buffer[i]])'], 'alaw2d_array': ['(normfact * alaw_decode[buffer[i]])'],
+    's2ulaw_array': ['ulaw_encode[($0[$i] / 4)]', '(127 & ulaw_encode[($0[$i] / -4)])'],
+    'i2ulaw_array': ['ulaw_encode[8191]', 'ulaw_encode[($0[$i] >> 18)]', '(127 & ulaw_encode[(-$0[$i] >> 18)])'],
+    'f2ulaw_array': ['ulaw_encode[R(($3 * $0[$i]))]', '(127 & ulaw_encode[-R(($3 * $0[$i]))])'],
+    'd2ulaw_array': ['ulaw_encode[R(($3 * $0[$i]))]', '(127 & ulaw_encode[-R(($3 * $0[$i]))])'],
+    's2alaw_array': ['alaw_encode[($0[$i] / 16)]', '(127 & alaw_encode[($0[$i] / -16)])'],
+    'i2alaw_array': ['alaw_encode[2047]', 'alaw_encode[($0[$i] >> 20)]', '(127 & alaw_encode[(-$0[$i] >> 20)])'],
+    'f2alaw_array': ['alaw_encode[R(($3 * $0[$i]))]', '(127 & alaw_encode[-R(($3 * $0[$i]))])'],
+    'd2alaw_array': ['alaw_encode[R(($3 * $0[$i]))]', '(127 & alaw_encode[-R(($3 * $0[$i]))])'],
+    'ulaw2s_array': ['ulaw_decode[$0[$i]]'], 'ulaw2i_array': ['(ulaw_decode[$0[$i]] << 16)'], 'ulaw2f_array': ['($3 * ulaw_decode[$0[$i]])'], 'ulaw2d_array': ['($3 * ulaw_decode[$0[$i]])'],
+    'alaw2s_array': ['alaw_decode[$0[$i]]'], 'alaw2i_array': ['(alaw_decode[$0[$i]] << 16)'], 'alaw2f_array': ['($3 * alaw_decode[$0[$i]])'], 'alaw2d_array': ['($3 * alaw_decode[$0[$i]])'],
 }
 
 
@@ -37,14 +37,17 @@ def g711_kernels(ctx, prog):
             # negating the magnitude before or after rounding is the same value (round-half-even is symmetric)
             for r_ in ('ulaw_index(', 'alaw_index(', 'psf_lrintf(', 'psf_lrint('):
                 t = t.replace(r_, 'R(')
-            return t.replace('R((-normfact * ptr[i]))', '-R((normfact * ptr[i]))')
+            return t.replace('R((-$3 * $0[$i]))', '-R(($3 * $0[$i]))')
+        from engine.util import alpha_map as _am, alpha_str as _as
+        amap = _am(f)
+        fs_ = lambda n_: _as(f.s(n_), amap)          # parameters by position ($0 source, $2 destination, $3 scale), loop index $i: renames do not matter
         for n in f.walk():
             if n['k'] in ('ArraySubscriptExpr', 'BinaryOperator'):
-                have.add(canon(f.s(n)))
+                have.add(canon(fs_(n)))
         miss = [r for r in req if r not in have]
         # every subscript of a G.711 table in the kernel must be one of the required forms
         extra = [f.s(n) for n in f.walk() if n['k'] == 'ArraySubscriptExpr' and f.s(n['kids'][0]) in ('ulaw_encode', 'alaw_encode', 'ulaw_decode', 'alaw_decode')
-                 and not any(canon(f.s(n)) in r for r in req)]
+                 and not any(canon(fs_(n)) in r for r in req)]
         for c_ in f.calls():
             if c_.get('callee') in ('ulaw_index', 'alaw_index'):
                 h = prog.fn(c_['callee'])
@@ -60,22 +63,46 @@ def g711_kernels(ctx, prog):
         if name.endswith(('2alaw_array', '2ulaw_array')):
             from engine.util import assigned_lvalues as _al
             k_ = 0
+            dst = f.params[2]['n'] if len(f.params) > 2 else 'buffer'
+            src = f.params[0]['n'] if f.params else 'ptr'
+            cfg_ = f.cfg
+
+            def sign_at(node):
+                """sign of the source sample where `node` executes, from the branch conditions on the way there: walks the CFG backwards over
+                single-predecessor edges (covers nested if / else-if chains as well as `if (x >= 0) { ... continue ; }` followed by the negative case)"""
+                pt = cfg_.point(node)
+                if pt is None:
+                    return None
+                b = pt[0]
+                seen_ = set()
+                while b not in seen_:
+                    seen_.add(b)
+                    preds = cfg_.preds.get(b, [])
+                    if len(preds) != 1:
+                        return None
+                    pb = preds[0]
+                    blk = cfg_.blocks[pb]
+                    if 'cond' in blk and len(blk['succs']) == 2 and blk['succs'][0] != blk['succs'][1] and blk.get('tk') != 'SwitchStmt':
+                        pol = blk['succs'][0] == b
+                        cs = f.s(blk['cond']).replace(' ', '')
+                        if src + '[' in cs:
+                            if '>=0' in cs:
+                                return (not pol)
+                            if '<0' in cs and '<=0' not in cs:
+                                return pol
+                            if '==INT_MIN' in cs or '==-2147483648' in cs or '==(-2147483647-1)' in cs:
+                                if pol:
+                                    return True
+                            if '!=INT_MIN' in cs or '!=-2147483648' in cs or '!=(-2147483647-1)' in cs:
+                                if not pol:
+                                    return True
+                    b = pb
+                return None
             for lv, a, r in _al(f):
-                if not lv.startswith('buffer[') or r is None:
+                if not lv.startswith(dst + '[') or r is None:
                     continue
                 k_ += 1
-                neg = None
-                cur = a
-                for anc in f.ancestors(a):
-                    if anc['k'] == 'IfStmt':
-                        cs = f.s(anc['cond']).replace(' ', '')
-                        in_then = anc.get('then') is not None and (f.within(cur, anc['then']) or cur is f.N[anc['then']])
-                        if '>=0' in cs:
-                            neg = not in_then
-                        elif '==INT_MIN' in cs or '==-2147483648' in cs or '(-2147483647-1)' in cs:
-                            neg = True if in_then else neg
-                        if neg is not None:
-                            break
+                neg = sign_at(a)
                 rs = f.s(f.unwrap(r)).replace(' ', '')
                 masked = rs.startswith('(127&') or rs.endswith('&127)')
                 if neg is None and f.unwrap(r).get('v') is not None:
@@ -181,19 +208,29 @@ def run(ctx):
     ctx.ob('BPRED-RANGE', 'msadpcm_decode_block:index', bool(subs) and not badi, d.loc(badi[0]) if badi else d.loc(d.body), '%d subscripts of AdaptCoeff1/2, %s' % (len(subs), 'all indexed by bpred []' if not badi else 'one indexed by something else'), None)
 
     ctx.rule('STEP-WIDTH', 'in the IMA ADPCM coders every variable that accumulates shifted copies of the step (vpdiff / diff = step >> 3 ; += step >> k ...) is at least 32 bits wide: the sum reaches '
-             '61438 for the largest step, a 16-bit variable wraps negative and the predictor jumps the wrong way', floor=4)
+             '61438 for the largest step, a 16-bit variable wraps negative and the predictor jumps the wrong way', floor=3)
     from engine.model import int_type as _it
     from engine.util import assigned_lvalues as _al3
     nsw = 0
-    for fn_ in sorted(prog.lib_fns(), key=lambda f: (f.file, f.line)):
-        if fn_.file.split('/')[-1] not in ('ima_adpcm.c', 'ima_oki_adpcm.c', 'vox_adpcm.c'):
-            continue
+    STEP_TABLES = ('ima_step_size', 'ima_steps', 'oki_steps', 'steps')
+    ima_fns = [fn_ for fn_ in sorted(prog.lib_fns(), key=lambda f: (f.file, f.line)) if fn_.file.split('/')[-1] in ('ima_adpcm.c', 'ima_oki_adpcm.c', 'vox_adpcm.c')]
+    # a helper that receives the step as an argument (code extracted from the decoders) accumulates it just the same: its parameter is a step variable
+    step_params = {}
+    for fn_ in ima_fns:
+        sv_ = {lv for lv, a, r in _al3(fn_) if r is not None and any(y['k'] == 'ArraySubscriptExpr' and fn_.s(fn_.N[y['kids'][0]]) in STEP_TABLES for y in fn_.walk(r))}
+        for c_ in fn_.calls():
+            gs_ = prog.fns.get(c_.get('callee') or '', [])
+            if len(gs_) == 1 and gs_[0] in ima_fns:
+                for k_, a_ in enumerate(fn_.args(c_)):
+                    if fn_.s(fn_.unwrap(a_)) in sv_ and k_ < len(gs_[0].params):
+                        step_params.setdefault(gs_[0].name, set()).add(gs_[0].params[k_]['n'])
+    for fn_ in ima_fns:
         locs_ = {}
         for x in fn_.walk():
             if x['k'] == 'DeclStmt':
                 for v in x.get('decls', []):
                     locs_[v['n']] = v['t']
-        stepvars = {lv for lv, a, r in _al3(fn_) if r is not None and any(y['k'] == 'ArraySubscriptExpr' and fn_.s(fn_.N[y['kids'][0]]) in ('ima_step_size', 'ima_steps', 'oki_steps', 'steps') for y in fn_.walk(r))}
+        stepvars = {lv for lv, a, r in _al3(fn_) if r is not None and any(y['k'] == 'ArraySubscriptExpr' and fn_.s(fn_.N[y['kids'][0]]) in STEP_TABLES for y in fn_.walk(r))} | step_params.get(fn_.name, set())
         if not stepvars:
             continue
         acc = set()
@@ -207,7 +244,7 @@ def run(ctx):
             nsw += 1
             ok = bool(it_) and it_[0] >= 32
             ctx.ob('STEP-WIDTH', '%s:%s' % (fn_.name, v), ok, fn_.loc(fn_.body), 'accumulator `%s` of step shifts has type %s%s' % (v, locs_[v], '' if ok else ' — too narrow for step + step/2 + step/4 + step/8 (up to 61438)'), None)
-    ctx.require(nsw >= 4, 'only %d step accumulators found in the IMA coders' % nsw)
+    ctx.require(nsw >= 3, 'only %d step accumulators found in the IMA coders' % nsw)
 
 
     ctx.rule('SHIFT-RANGE', 'in the codec kernel files (float32.c, double64.c, ulaw.c, alaw.c, ima_adpcm.c, ms_adpcm.c, nms_adpcm.c, vox_adpcm.c, ima_oki_adpcm.c) every shift by a variable amount has its '
